@@ -7,6 +7,7 @@ CONSTANTS
   ArgVals = 1
   TypeIds = {"US1", "US2", "US3", "US4", "US5", "US6", "US7", "US8", "UE1", "UE2", "UE3", "UE4", "UE5", "UE6", "UE7", "UE8", "UE9"}
   LMults = {0, 1, 2}
+  BigInit = FALSE
   FollowUps = FALSE
 INVARIANTS InvRoundTrip InvSize InvLenCap InvFlexShape
 CHECK_DEADLOCK FALSE
